@@ -615,6 +615,26 @@ fn wl_c09(seed: u64, tier: &str) -> Vec<Vec<Value>> {
                 for func in ["inv", "sqr", "neg"].iter() {
                     ops.push(json!({"op": "ext", "f": fname, "fn": func, "a": xj, "cls": "unitary"}));
                 }
+                if *fname == "Fq12" {
+                    // a subfield element (Fq, Fq2, Fq4 = Fq2(v w), Fq6) times the unitary one
+                    let z = zero_w(&fq);
+                    let z2 = f2(&z, &z);
+                    let z6 = json!([z2, z2, z2]);
+                    let subs = vec![
+                        json!([[f2(&w_add_small(&z, 2), &z), z2, z2], z6]),
+                        json!([[rand_f2(&mut r, &fq), z2, z2], z6]),
+                        json!([[rand_f2(&mut r, &fq), z2, z2], [z2, rand_f2(&mut r, &fq), z2]]),
+                        json!([rand_f6(&mut r, &fq), z6]),
+                    ];
+                    let s = &subs[i % subs.len()];
+                    let mut f = Fq12::from_j(s);
+                    f.mul_assign(&Fq12::from_j(&xj));
+                    for func in ["inv", "sqr"].iter() {
+                        ops.push(json!({"op": "ext", "f": fname, "fn": func, "a": f.to_j(), "cls": "subfield-times-unitary"}));
+                    }
+                    ops.push(json!({"op": "ext", "f": fname, "fn": "inv", "a": s, "cls": "subfield-element"}));
+                    ops.push(json!({"op": "ext", "f": fname, "fn": "mul", "a": f.to_j(), "b": s, "cls": "subfield-times-unitary"}));
+                }
                 ops.push(json!({"op": "ext", "f": fname, "fn": "mul", "a": xj, "b": rnd(&mut r), "cls": "unitary"}));
                 ops.push(json!({"op": "ext", "f": fname, "fn": "mul", "a": xj, "b": xj, "cls": "unitary"}));
                 ops.push(json!({"op": "ext", "f": fname, "fn": "frob", "a": xj, "k": nat(&vec![1 + (i as u64 % 11)]), "cls": "unitary"}));
